@@ -1170,6 +1170,46 @@ def leg_fs_registry_interleave(ns, res, spec):
                     bad[0] += 1
                     res.violation('py:shared-fs-registry-result-depends-on-interleaving', '[py] two CSV JOIN queries through one FileSystemCSVRegistry under schedule %s: query %d -> %r ; alone -> %r' % (
                         ''.join(str(t + 1) for t in s.trace), k, got, solo[k]), {'leg': 'fs-registry', 'schedule': s.trace, 'query': k})
+        # the same registry object across a HISTORY of queries, some of which carry a WITH modifier, name their input by FROM, or fail: whatever a query
+        # configured is its own affair
+        def run_text(q, reg, with_input):
+            out, warns = [], []
+            try:
+                if with_input:
+                    with open(os.path.join(d, 'in_1.csv'), 'rb') as f:
+                        ns.rbql.query(q, ns.csv.CSVRecordIterator(f, 'utf-8', ',', 'quoted'), ns.engine.TableWriter(out), warns, reg)
+                else:
+                    ns.rbql.query(q, None, ns.engine.TableWriter(out), warns, reg)
+                return {'rows': out, 'warnings': warns, 'error': None}
+            except Exception as e:
+                return {'rows': out, 'warnings': warns, 'error': '%s: %s' % (type(e).__name__, str(e)[:80])}
+        HIST = [('select a1, a2 from in_1.csv WITH (header)', False), ('select a1, b2 join jn_2.csv on a1 == b1', True), ('select a1 from in_2.csv', False), ('select a1, b2 join jn_1.csv on a1 == b1 WITH (noheader)', True),
+                ('select a1 + from in_1.csv WITH (header)', False), ('select a1, b.k0 join jn_1.csv on a1 == b1 WITH (header)', True), ('select NR, a1 from jn_1.csv', False), ('select int(a2) from in_1.csv with (header)', False)]
+        solo_h = []
+        for q, wi in HIST:
+            reg = fresh_registry()
+            solo_h.append(run_text(q, reg, wi))
+            try:
+                reg.finish()
+            except Exception:
+                pass
+        hrng = random.Random(spec['seed'] * 7 + 1)
+        for _h in range(12):
+            reg = fresh_registry()
+            order = list(range(len(HIST)))
+            hrng.shuffle(order)
+            for pos, i in enumerate(order):
+                got = run_text(HIST[i][0], reg, HIST[i][1])
+                res.evaluations += 1
+                res.count('fs_registry_history_runs')
+                if got != solo_h[i]:
+                    res.violation('py:shared-fs-registry-result-depends-on-history', '[py] %r through a FileSystemCSVRegistry that served %r before -> %r ; with a registry of its own -> %r' % (
+                        HIST[i][0], [HIST[j][0] for j in order[:pos]][-3:], got, solo_h[i]), {'leg': 'fs-registry-history', 'order': order[:pos + 1]})
+                    break
+            try:
+                reg.finish()
+            except Exception:
+                pass
         count, traces, complete = sched.explore(make_bodies, on_run, spec.get('max_schedules', 400))
         res.count('fs_registry_distinct_traces', traces)
         res.distinct_disjoint += traces
@@ -1188,7 +1228,7 @@ def summarize(tier, seed, m):
         'rule': '%d scenarios (plain select, like, UNNEST, ORDER BY, DISTINCT COUNT, GROUP BY with all nine aggregates, JOIN, UPDATE with NU, TOP, syntax error, parsing error, runtime error at record 2, aggregate misuse, double UNNEST, and two pairs of identical query texts over differently ordered headers); solo results from one fresh interpreter per scenario; history: every sequence of length <= 2 plus random sequences of length 3..6 in one process; interleaving: every unordered pair of scenarios (incl. a scenario with itself) in two real threads under the cooperative scheduler, ALL interleavings of the get_record / write / finish steps enumerated by stateless DFS (%s); preemption stress with sys.monitoring LINE yield injection; generated queries (C01-C05 generators, failing variants, and header twins: the same query text over the same data with the columns in another order) whose solo results come from forked children of a query-free interpreter, together with a state-reading query (its result is interpreter-wide state: int/str digit limit, recursion limit, switch interval, decimal precision, locale, encodings, buffer size, TZ, csv field limit) three queries whose user init code keeps module-level state (a counter, a memo; each twice), and nine stress queries (5000-digit integers written before a failure, 200000-character cells, 3000-column records, float overflow), then run in three shuffled orders through one interpreter (probe sink and CSV writer sink) and pairwise in two threads under seeded random schedules; the JS port sequentially: generated language-neutral queries alone in a fresh node process each vs three shuffled histories (with failing queries interspersed) in one node process; the sqlite front-end with one connection shared by every ordered pair of 15 queries (utf-8 / latin-1 output, 7 of them failing) vs a fresh connection each, and the caller\'s connection settings before / after; the pandas front-end with ONE DataFrame object (and one join frame) serving histories of 3-6 queries while its owner re-labels, permutes, renames, adds, drops and overwrites columns in place between them, each result compared with the same query over a newly built equal frame in a forked child that ran no query; query_csv histories of 3-8 calls where the meaning of a query text depends on its surroundings (the same relative join table name next to inputs in three directories, a relative input path under a changing working directory, a ~/.rbql_table_names entry re-pointed between calls, dialect / encoding / header flag changing from call to call, failing calls in between), against forked-child baselines; histories of 3-7 queries over ONE list table object with typed cells (numbers, None, strings a CSV sink must quote) and one join table through list and CSV sinks, against fresh copies in forked children; the front-ends side by side: 8 threads running query_csv (five dialects / encodings, JOIN files, failing queries), query_pandas_dataframe and query_sqlite_to_csv under statement-level yield injection in the engine, CSV reader / writer, splitter and adapters, each result compared with a forked child that ran only that task. distinct_nontrivial = distinct step traces realised + distinct history sequences.' % (
             len(SCENARIOS), '2-record tables' if tier == 'quick' else '2- and 3-record tables for all pairs (3-record pairs capped at 20000 schedules), 4-record tables for 6 selected pairs'),
         'exhaustive': m['counters'].get('pairs_truncated', 0) == 0,
-        'required': ['js_csv_history_runs', 'fs_registry_schedules', 'shared_registry_history_runs', 'shared_table_history_runs', 'shared_table_solo_results_from_forked_children', 'shared_table_history_sink:csv-quoted', 'shared_table_history_sink:list', 'csv_history_runs', 'csv_history_solo_results_from_forked_children', 'csv_history_solo_failing', 'environment_reader_and_stressor_cases', 'frontend_thread_runs', 'frontend_solo_results_from_forked_children', 'frontend_solo_failing', 'frontend_injected_yields', 'pandas_history_runs', 'pandas_history_solo_results_from_forked_children', 'pandas_history_solo_failing', 'pandas_history_op:relabel', 'pandas_history_op:add', 'sqlite_history_runs', 'sqlite_history_solo_failing', 'js_solo_results_from_fresh_node_processes', 'js_history_runs', 'generated_solo_results', 'generated_header_twins', 'generated_history_runs', 'generated_interleaved_schedules', 'generated_interleaved_handoffs', 'schedules', 'pairs_enumerated_completely', 'handoffs', 'history_runs', 'preemption_runs', 'line_events_in_main_loop', 'injected_yields'],
+        'required': ['js_csv_history_runs', 'fs_registry_schedules', 'fs_registry_history_runs', 'shared_registry_history_runs', 'shared_table_history_runs', 'shared_table_solo_results_from_forked_children', 'shared_table_history_sink:csv-quoted', 'shared_table_history_sink:list', 'csv_history_runs', 'csv_history_solo_results_from_forked_children', 'csv_history_solo_failing', 'environment_reader_and_stressor_cases', 'frontend_thread_runs', 'frontend_solo_results_from_forked_children', 'frontend_solo_failing', 'frontend_injected_yields', 'pandas_history_runs', 'pandas_history_solo_results_from_forked_children', 'pandas_history_solo_failing', 'pandas_history_op:relabel', 'pandas_history_op:add', 'sqlite_history_runs', 'sqlite_history_solo_failing', 'js_solo_results_from_fresh_node_processes', 'js_history_runs', 'generated_solo_results', 'generated_header_twins', 'generated_history_runs', 'generated_interleaved_schedules', 'generated_interleaved_handoffs', 'schedules', 'pairs_enumerated_completely', 'handoffs', 'history_runs', 'preemption_runs', 'line_events_in_main_loop', 'injected_yields'],
         'assumptions': ['exhaustive at the granularity of iterator / writer calls (what the statement names); statement-level preemption is sampled; bytecode-level is not explored', 'a change of module-level state alone is not a refutation (advisory notes only)'],
     }
 
